@@ -4917,7 +4917,12 @@ yyreduce:
           {
             case OBJECT_TYPE_INTEGER:
               (yyval.expression).type = EXPRESSION_TYPE_INTEGER;
-              (yyval.expression).value.integer = (yyvsp[0].expression).value.object->value.i;
+              // A top-level integer object is an external variable. Its value
+              // can be redefined after compilation, so the value it has now
+              // must not be taken for a compile-time constant.
+              (yyval.expression).value.integer = ((yyvsp[0].expression).value.object->parent == NULL)
+                  ? YR_UNDEFINED
+                  : (yyvsp[0].expression).value.object->value.i;
               break;
             case OBJECT_TYPE_FLOAT:
               (yyval.expression).type = EXPRESSION_TYPE_FLOAT;
